@@ -44,8 +44,9 @@ Same(a, b) == Canon(a) = Canon(b)
 RECURSIVE Proj(_, _, _)
 Proj(root, S0, v) ==
   CASE S0.k = "self" -> Proj(root, root, v)
+    [] S0.k = "ref" -> Proj(Defs[S0.name], Defs[S0.name], v)
     \* a formatted string is held as the value it spells: it comes back in canonical spelling
-    [] S0.k = "fmt" /\ S0.ty = "string" /\ V(root, S0, v) -> [t |-> "str", s |-> <<FmtEcho(S0.name, v.s[1])>>]
+    [] S0.k = "fmt" /\ S0.ty = "string" /\ V(root, S0, v) /\ v.s # <<>> -> [t |-> "str", s |-> <<FmtEcho(S0.name, v.s[1])>>]
     [] S0.k \in {"nullable", "enum"} -> IF v.t = "null" THEN v ELSE Proj(root, S0.s, v)
     [] S0.k = "arr" /\ v.t = "arr" -> [t |-> "arr", v |-> [i \in 1..Len(v.v) |-> Proj(root, S0.items, v.v[i])]]
     [] S0.k = "obj" /\ v.t = "obj" ->
